@@ -559,6 +559,32 @@ def needs_drop(P, ty, depth=0):
     return any(needs_drop(P, f["ty"], depth + 1) for v in adt["variants"] for f in v["fields"])
 
 
+def blank_unreachable(B):
+    """blocks no path from the entry reaches any more (their jumps were threaded past them) must not keep defining variables"""
+    seen, todo = set(), [0]
+    while todo:
+        x = todo.pop()
+        if x in seen:
+            continue
+        seen.add(x)
+        tx = B.blocks[x]["term"]
+        if tx is not None:
+            todo.extend(_succs(tx))
+            if isinstance(tx.get("unwind"), int):
+                todo.append(tx["unwind"])
+    n = 0
+    for i, blk in enumerate(B.blocks):
+        if i not in seen and not blk.get("cleanup") and (blk["stmts"] or (blk["term"] or {}).get("k") != "unreachable"):
+            blk["stmts"] = []
+            blk["term"] = {"k": "unreachable"}
+            n += 1
+    if n:
+        B._names = None
+        B._cfg = None
+        B._defs = None
+    return n
+
+
 def split_tuples(B, P=None):
     """Scalar replacement of the tuple temporaries that splicing a helper leaves behind: a local that is only ever built whole
     (`t = (a, b)` or `t = move t2` of another such local) and read field by field becomes one local per field.  `let (n, cut) =
@@ -1316,6 +1342,7 @@ def inline_program(P):
             if not k:
                 break
         if n:
+            blank_unreachable(B)
             log.append("%s: %d constant jump(s) threaded" % (fid, n))
     # helpers with no remaining use
     still_called = set()
